@@ -91,6 +91,7 @@ enum class ot
 {
     I64,
     I32,
+    U64,
     F64,
     F32,
     PI64,
@@ -110,6 +111,7 @@ const char* name_of(const ot t)
     {
     case ot::I64: return "assign_int64";
     case ot::I32: return "assign_int32";
+    case ot::U64: return "assign_uint64";
     case ot::F64: return "assign_double";
     case ot::F32: return "assign_float";
     case ot::PI64: return "assign_pair_int64";
@@ -129,6 +131,7 @@ struct op_t
 {
     ot          type{ot::I64};
     int64_t     i1{0}, i2{0};
+    uint64_t    u1{0};
     double      d1{0}, d2{0};
     std::string s;
     int         e{0};
@@ -139,6 +142,7 @@ struct op_t
         {
         case ot::I64:
         case ot::I32: return std::string(name_of(type)) + "(" + std::to_string(i1) + ")";
+        case ot::U64: return std::string(name_of(type)) + "(" + std::to_string(u1) + ")";
         case ot::F64:
         case ot::F32: return std::string(name_of(type)) + "(" + jnum(d1) + "/" + bits(d1) + ")";
         case ot::PI64:
@@ -157,6 +161,13 @@ op_t opI64(const int64_t v)
     op_t o;
     o.type = ot::I64;
     o.i1   = v;
+    return o;
+}
+op_t opU64(const uint64_t v)
+{
+    op_t o;
+    o.type = ot::U64;
+    o.u1   = v;
     return o;
 }
 op_t opI32(const int32_t v)
@@ -369,6 +380,7 @@ struct ref_t
     }
 
     // classification of a double that is to become an integer
+    static bool outside_int64(const double d) { return !std::isfinite(d) || d >= 9223372036854775808.0 || d < -9223372036854775808.0; }
     static bool int_convertible(const double d, std::string& why)
     {
         if (!std::isfinite(d) || std::fabs(d) >= 9223372036854775808.0)
@@ -408,7 +420,7 @@ struct ref_t
             std::string why;
             if (!int_convertible(v, why))
             {
-                return mk(verdict::UNDEFINED, why);
+                return outside_int64(v) ? mk(verdict::REJECT, "reject:no-int64-value-for-this-double") : mk(verdict::UNDEFINED, why);
             }
             return single_int(static_cast<int64_t>(v));
         }
@@ -445,6 +457,10 @@ struct ref_t
         if (kind == kind_t::IPAIR)
         {
             std::string why;
+            if (outside_int64(a) || outside_int64(b))
+            {
+                return mk(verdict::REJECT, "reject:no-int64-value-for-this-double");
+            }
             if (!int_convertible(a, why) || !int_convertible(b, why))
             {
                 return mk(verdict::UNDEFINED, why);
@@ -469,7 +485,7 @@ struct ref_t
         switch (out.cls)
         {
         case numtok_t::NONE: decided = mk(verdict::REJECT, "reject:not-a-number"); return false;
-        case numtok_t::PREFIX: decided = mk(verdict::UNDEFINED, "undefined:numeric-prefix-with-trailing-text"); return false;
+        case numtok_t::PREFIX: decided = mk(verdict::REJECT, "reject:numeric-prefix-with-trailing-text"); return false;
         case numtok_t::RANGE_OVER: decided = mk(verdict::REJECT, "reject:literal-overflows"); return false;
         case numtok_t::RANGE_UNDER: decided = mk(verdict::UNDEFINED, "undefined:literal-underflows"); return false;
         default: return true;
@@ -543,7 +559,11 @@ struct ref_t
             {
                 return mk(verdict::REJECT, "reject:not-a-number");
             }
-            if (pieces.size() > 2 || nsep != 1)
+            if (pieces.size() > 2)
+            {
+                return mk(verdict::REJECT, "reject:more-than-two-values-for-a-pair");
+            }
+            if (nsep != 1)
             {
                 return mk(verdict::UNDEFINED, "undefined:pair-text-not-of-the-form-a-sep-b");
             }
@@ -567,6 +587,11 @@ struct ref_t
         {
         case ot::I64:
         case ot::I32: return single_int(op.i1);
+        case ot::U64:
+            // an unsigned value above INT64_MAX has no int64 (and, for real kinds, is simply a large number)
+            return op.u1 > static_cast<uint64_t>(std::numeric_limits<int64_t>::max())
+                     ? (kind == kind_t::INT ? mk(verdict::REJECT, "reject:unsigned-value-above-int64-max") : single_real(static_cast<double>(op.u1)))
+                     : single_int(static_cast<int64_t>(op.u1));
         case ot::F64:
         case ot::F32: return single_real(op.d1);
         case ot::PI64:
@@ -1019,6 +1044,27 @@ std::vector<shape_t> make_shapes()
                     opS("9007199254740993"), opS("abc"), opT(ot::WRITE_READ), opT(ot::COPY)});
         shapes.push_back(s);
     }
+    // an integer parameter over the whole int64 range: nothing is out of the declared domain, so only values that have no
+    // int64 at all (NaN, infinities, |x| >= 2^63, unsigned values above INT64_MAX) can and must be rejected
+    {
+        constexpr int64_t IMIN = std::numeric_limits<int64_t>::min(), IMAX = std::numeric_limits<int64_t>::max();
+        shape_t           s;
+        s.name     = "int_full_int64_range";
+        s.ref.kind = kind_t::INT;
+        s.ref.lo   = static_cast<double>(IMIN); // exact
+        s.ref.hi   = static_cast<double>(IMAX); // rounds to 2^63: every int64 satisfies v <= hi
+        s.ref.loLE = true;
+        s.ref.hiLE = true;
+        s.ref.i1   = 0;
+        s.make     = [] { return parameter_t::make_integer("p", IMIN, LE, 0, LE, IMAX); };
+        s.ops = {opI64(0), opI64(7), opI64(IMIN), opI64(IMAX), opF64(NaN), opF64(INF), opF64(-INF), opF64(1e300), opF64(-1e300),
+                 opF64(9223372036854775808.0), opF64(-9223372036854775808.0), opF64(3.0), opU64(5), opU64(18446744073709551611ULL),
+                 opU64(9223372036854775808ULL), opS("12"), opS("12abc"), opS("1e3"), opS("abc")};
+        add_common_tail(s.ops);
+        core_of(s, {opI64(7), opF64(NaN), opF64(INF), opF64(1e300), opF64(9223372036854775808.0), opU64(18446744073709551611ULL),
+                    opS("12abc"), opS("1e3"), opT(ot::COPY)});
+        shapes.push_back(s);
+    }
     return shapes;
 }
 
@@ -1032,6 +1078,7 @@ bool exec(std::unique_ptr<parameter_t>& p, const op_t& op, std::string& what)
         {
         case ot::I64: *p = op.i1; break;
         case ot::I32: *p = static_cast<int32_t>(op.i1); break;
+        case ot::U64: *p = op.u1; break;
         case ot::F64: *p = op.d1; break;
         case ot::F32: *p = static_cast<float>(op.d1); break;
         case ot::PI64: *p = std::make_tuple(op.i1, op.i2); break;
@@ -1389,15 +1436,15 @@ int oracle_selftest(const std::vector<shape_t>& shapes)
     bool        ok = true;
     ok = ok && I.judge(opI64(11)).v == verdict::REJECT && I.judge(opI64(10)).v == verdict::ACCEPT;
     ok = ok && J.judge(opI64(10)).v == verdict::REJECT && J.judge(opI64(1)).v == verdict::REJECT && J.judge(opI64(2)).v == verdict::ACCEPT;
-    ok = ok && I.judge(opF64(2.5)).v == verdict::UNDEFINED && I.judge(opF64(NaN)).v == verdict::UNDEFINED;
+    ok = ok && I.judge(opF64(2.5)).v == verdict::UNDEFINED && I.judge(opF64(NaN)).v == verdict::REJECT;
     ok = ok && F.judge(opF64(NaN)).v == verdict::REJECT && F.judge(opF64(0.0)).v == verdict::REJECT && F.judge(opF64(1.0)).v == verdict::ACCEPT;
     ok = ok && F.judge(opF64(DMIN)).v == verdict::ACCEPT && F.judge(opF64(std::nextafter(1.0, 2.0))).v == verdict::REJECT;
-    ok = ok && I.judge(opS("5")).v == verdict::ACCEPT && I.judge(opS("5")).i1 == 5 && I.judge(opS("3abc")).v == verdict::UNDEFINED;
-    ok = ok && I.judge(opS("abc")).v == verdict::REJECT && I.judge(opS("")).v == verdict::REJECT && I.judge(opS("0.5")).v == verdict::UNDEFINED;
+    ok = ok && I.judge(opS("5")).v == verdict::ACCEPT && I.judge(opS("5")).i1 == 5 && I.judge(opS("3abc")).v == verdict::REJECT;
+    ok = ok && I.judge(opS("abc")).v == verdict::REJECT && I.judge(opS("")).v == verdict::REJECT && I.judge(opS("0.5")).v == verdict::REJECT;
     ok = ok && F.judge(opS("1e-1")).v == verdict::ACCEPT && F.judge(opS("1e-1")).d1 == 0.1 && F.judge(opS("nan")).v == verdict::REJECT;
     ok = ok && P.judge(opPI64(3, 3)).v == verdict::REJECT && P.judge(opPI64(0, 10)).v == verdict::ACCEPT && P.judge(opPI64(7, 3)).v == verdict::REJECT;
     ok = ok && P.judge(opS("5,7")).v == verdict::ACCEPT && P.judge(opS("7;5")).v == verdict::REJECT && P.judge(opS("5")).v == verdict::REJECT;
-    ok = ok && P.judge(opS("1,2,3")).v == verdict::UNDEFINED && P.judge(opS("abc,7")).v == verdict::REJECT;
+    ok = ok && P.judge(opS("1,2,3")).v == verdict::REJECT && P.judge(opS("abc,7")).v == verdict::REJECT;
     ok = ok && Q.judge(opPF64(0.25, 0.25)).v == verdict::REJECT && Q.judge(opPF64(0.25, NaN)).v == verdict::REJECT;
     ok = ok && Q.judge(opPF64(DMIN, std::nextafter(1.0, 0.0))).v == verdict::ACCEPT && Q.judge(opPF64(0.0, 0.5)).v == verdict::REJECT;
     // hand-made wrong answers must be flagged
